@@ -151,7 +151,7 @@ def sufSize (m : MatrixModel) (kind : Nat) : Nat :=
   match kind % 4 with | 0 => m.n | 1 => m.m | _ => 1
 
 /-- `pdOld`: the `PreprocessData` state of the case's session before this model is loaded -/
-def runCase (c : Case) (pdOld : Pd) (errOld : Bool) : List String × Pd × Bool := Id.run do
+def runCase (c : Case) (pdOld : Pd) (errOld : Bool) (fsOld : NameFiles) : List String × Pd × Bool × NameFiles := Id.run do
   let m := c.m
   let id := c.id
   let pd := exportPrepro pdOld m
@@ -187,10 +187,11 @@ def runCase (c : Case) (pdOld : Pd) (errOld : Bool) : List String × Pd × Bool 
     for s in feedSuffixes m do
       if !s.entries.isEmpty then
         out := out.push (s!"{id} suf {s.name} {s.kind % 8}" ++ showDenseNZ (dense (sufSize m s.kind) s.entries))
-  match feedColNames m with
+  let fs := writeNameFiles fsOld m
+  match fs.col with
   | none => out := out.push s!"{id} colfile 0"
   | some l => out := out.push (s!"{id} colfile 1" ++ String.join (l.map (fun s => " " ++ showName s)))
-  match feedRowObjNames m with
+  match fs.row with
   | none => out := out.push s!"{id} rowfile 0"
   | some l => out := out.push (s!"{id} rowfile 1" ++ String.join (l.map (fun s => " " ++ showName s)))
   out := out.push s!"{id} sol code {c.code}"
@@ -207,32 +208,35 @@ def runCase (c : Case) (pdOld : Pd) (errOld : Bool) : List String × Pd × Bool 
   out := out.push s!"{id} sol err {if err then 1 else 0}"
   if m.api == 0 then out := out.push s!"{id} samefile 1"
   out := out.push s!"{id} end"
-  pure (out.toList, pd, err)
+  pure (out.toList, pd, err, fs)
 
 /-- sessions: association list session id -> stored `PreprocessData` (session 0 is always fresh) -/
-partial def loop (h : IO.FS.Stream) (o : IO.FS.Stream) (st : List (Nat × Pd)) (errs : List ((Nat × Nat) × Bool) := []) : IO Unit := do
+partial def loop (h : IO.FS.Stream) (o : IO.FS.Stream) (st : List (Nat × Pd)) (errs : List ((Nat × Nat) × Bool) := [])
+    (files : List (Nat × NameFiles) := []) : IO Unit := do
   let line ← h.getLine
   if line.isEmpty then return
   let l := line.trimAscii.toString
-  if l.isEmpty || l.startsWith "#" then loop h o st errs
+  if l.isEmpty || l.startsWith "#" then loop h o st errs files
   else
     let toks := (l.splitOn " ").filter (fun t => !t.isEmpty)
     if toks == ["P"] then
       for s in probeLines do o.putStrLn s
-      loop h o st errs
+      loop h o st errs files
     else
     match (pCase.run toks) with
     | .ok (c, _) =>
       let pdOld : Pd := if c.session == 0 then ⟨[], []⟩ else ((st.lookup c.session).getD ⟨[], []⟩)
       -- the error flag lives in the solver object of the session: one C++ NLSolver and one C solver per session
       let errOld : Bool := if c.session == 0 then false else ((errs.lookup (c.session, c.m.api)).getD false)
-      let (lines, pd, err) := runCase c pdOld errOld
+      -- a session also keeps one file stub: the name files of the previous model are on disk
+      let fsOld : NameFiles := if c.session == 0 then ⟨none, none⟩ else ((files.lookup c.session).getD ⟨none, none⟩)
+      let (lines, pd, err, fs) := runCase c pdOld errOld fsOld
       for s in lines do o.putStrLn s
-      if c.session == 0 then loop h o st errs
-      else loop h o ((c.session, pd) :: st) (((c.session, c.m.api), err) :: errs)
+      if c.session == 0 then loop h o st errs files
+      else loop h o ((c.session, pd) :: st) (((c.session, c.m.api), err) :: errs) ((c.session, fs) :: files)
     | .error e =>
       o.putStrLn s!"bad-op {e}"
-      loop h o st errs
+      loop h o st errs files
 
 def main : IO Unit := do
   let i ← IO.getStdin
